@@ -66,10 +66,19 @@ theorem Inv.addIdHandler (h : Inv jid U NR p c) (s : SysH) (id : Bytes)
   · exact h
   · refine ⟨h.cfg, h.q, h.e, h.gg, ?_, h.f, h.ts⟩
     simp only [List.map_append, List.map_cons, List.map_nil, hkey]
-    refine h.h.addI (.sys s) (by rcases hk3 with e | e | e <;> simp [e]) ?_
+    refine h.h.addI (.sys s) false (by rcases hk3 with e | e | e <;> simp [e]) (by simp) ?_
     intro s' hs hs'; cases hs
     refine ⟨a.nil, a.nn, a.ph, h.rp_false a.rpb, ?_, h.not_connecting a.sb, fun _ => h.raw_false a.rb⟩
     rw [h.f.ps]; exact a.pb
+
+/-- the application registers its callback as an id handler -/
+theorem Inv.addIdHandlerUser (h : Inv jid U NR p c) (id : Bytes) :
+    Inv jid U NR p (Conn.addIdHandler c .userAll id true) := by
+  unfold Conn.addIdHandler; split
+  · exact h
+  · refine ⟨h.cfg, h.q, h.e, h.gg, ?_, h.f, h.ts⟩
+    simp only [List.map_append, List.map_cons, List.map_nil, hkey]
+    exact h.h.addI .userAll true (Or.inr (Or.inr (Or.inr rfl))) (by simp) (fun s e _ => by cases e)
 
 theorem Inv.addTimed (h : Inv jid U NR p c) (fn : TFun) (period : Nat) (usr : Bool)
     (hu : fn = .userTimed ↔ usr = true)
